@@ -60,7 +60,7 @@ class SrtContext:
         FontStyleType.italic
       ],
       StyleProperties.TextDecoration: [
-        TextDecorationType.underline
+        # Every values
       ],
       StyleProperties.Color: [
         # Every values
